@@ -18,17 +18,18 @@ def sh(cmd, cwd=None, env=None, timeout=3000):
 def main():
     prop, x = sys.argv[1], sys.argv[2]
     skip_suite = '--skip-suite' in sys.argv
-    wtname = f'/tmp/w3-{prop}'
+    rnd = sys.argv[sys.argv.index('--round') + 1] if '--round' in sys.argv else '3'
+    wtname = f'/tmp/w{rnd}-{prop}'
     src = f'{wtname}/_out'
     diff = os.path.join(src, f'{x}.diff')
     eq = os.path.join(src, f'equiv_{x}.py')
     assert os.path.exists(diff), diff
-    sid = f'{prop}-3{x}'
+    sid = f'{prop}-{rnd}{x}'
     wt = tempfile.mkdtemp(prefix=f'vr-{sid}-')
     os.rmdir(wt)
     rc, out = sh(f'git -C /repo worktree add -q {wt} HEAD')
     assert rc == 0, out
-    meta = {'id': sid, 'round': 3, 'property': prop, 'kind': 'behaviour-preserving refactoring',
+    meta = {'id': sid, 'round': int(rnd), 'property': prop, 'kind': 'behaviour-preserving refactoring',
             'source': 'independent sub-agent given only the property text and a scratch worktree'}
     try:
         sh(f'cp /repo/src/rsatoolbox/cengine/*.so /repo/src/rsatoolbox/cengine/similarity.c {wt}/src/rsatoolbox/cengine/')
